@@ -111,9 +111,15 @@ def h_run_on(sk, pmode, init_mode, cap, seed):
     uses = []
     with facades(uses):
         policy, table = make_policy(sk, pmode, seed)
-        rng = DemonicRng('rng')
+        from symrun.rngf import DrawBudgetExceeded
+        rng = DemonicRng('rng', max_draws=2 * cap + 1, strict=True)      # a roll-out capped at `cap` steps draws the start state and two values per step, no more
         init = None if init_mode == 'sampled' else sk.states[init_mode % len(sk.states)]
-        res = policy.run_on(mdp, initial_state=init, max_steps=cap, rng=rng)
+        try:
+            res = policy.run_on(mdp, initial_state=init, max_steps=cap, rng=rng)
+        except DrawBudgetExceeded as e:
+            S.check('run_on:never-takes-more-steps-than-the-cap(0-is-a-cap)', S.false(), detail=str(e))
+            return
+        S.check('run_on:never-takes-more-steps-than-the-cap(0-is-a-cap)', S.truth(len(res.steps) - 1 <= cap))
         for n_, c in valid_clauses(sk, v, table, res, init, cap, 'run_on').items():
             S.check(n_, c)
         S.check('run_on:draws-only-from-the-supplied-generator', S.truth(not uses), detail=repr(uses))
